@@ -440,8 +440,9 @@ pub fn run(ctx: &mut Ctx) -> Result<RunOut, Violation> {
     let faults = match focus {
         "C07" | "C20" => true,
         "C13" => t.chance(1, 3),
-        // C12 counts "fail early with an Err" as honouring the Entity contract.
+        // C12 and C01 count "fail early with an Err" as honouring the Entity contract.
         "C12" => t.chance(1, 3),
+        "C01" => t.chance(1, 5),
         _ => false,
     };
     let now_ns = gen_clock(t);
@@ -499,7 +500,7 @@ pub fn run(ctx: &mut Ctx) -> Result<RunOut, Violation> {
     }
     let t = &mut ctx.tape;
     let mut knobs = gen_knobs(t, faults);
-    if focus == "C12" {
+    if focus == "C12" || focus == "C01" {
         // Only contract-honouring misbehaviour: failing early with an Err.
         knobs.faults.retain(|f| *f == FaultKind::Error);
     }
@@ -1193,14 +1194,16 @@ fn check_c14_headers(ex: &Exchange, meta: &Meta, plan: &ReqPlan, now_ns: u128, w
         }
     }
     // Entity headers.
-    let names: Vec<String> = meta.headers.iter().map(|h| h.0.to_ascii_lowercase()).collect();
     match ex.status {
         200 => all_entity_headers_present(ex, meta, &ctxs())?,
         206 if !plan.has_if_range && !ex.is_multipart() => all_entity_headers_present(ex, meta, &ctxs())?,
         304 | 412 | 416 => {
-            for n in &names {
-                if ex.hdr(n).is_some() {
-                    return violation("C14", "entity-header-on-bodiless-status", format!("{}: carries entity header {n}", ctxs()));
+            // "carry none of them": none of the header fields the entity supplies (name and
+            // value); a response header of its own that merely shares a name is not one of them.
+            for (k, v) in &meta.headers {
+                let k = k.to_ascii_lowercase();
+                if ex.headers.iter().any(|(hk, hv)| *hk == k && hv == v) {
+                    return violation("C14", "entity-header-on-bodiless-status", format!("{}: carries the entity's header {k}: {:?}", ctxs(), String::from_utf8_lossy(v)));
                 }
             }
         }
